@@ -15,6 +15,8 @@ A group template (units/<group>.rs.in) is ordinary Verus text plus `//@` directi
   //@after  [#n] "<anchor text>"                                     ghost text inserted after it
   //@rewrite <RULE> [xN|x*] "<from>" => "<to>"                          declared semantics-preserving rewrite (W, R6, S1)
   //@pre                                                             ghost text at the very start of the body
+  //@hoist <name> "<expr>"                                           rule HL: leading sub-expression E of a statement -> `let name = E; <ghost text>` before it
+  //@tail <name> [: type]                                                    rule TL: tail expression E -> `let name = E; <ghost text> name`
   //@end
 
 Everything between the braces of the /repo function is copied verbatim, except for the declared
@@ -299,7 +301,10 @@ REWRITE_RULES = {
     # T1: explicit type ascription on a `let` whose type rustc infers from later uses (ghost text needs it earlier)
     'T1': lambda a, b: bool(re.fullmatch(r'(let\s+(mut\s+)?\w+)(\s*=.*)', a, re.S)) and re.sub(r'^(let\s+(mut\s+)?\w+)\s*:\s*[^=]+?(\s*=)', r'\1\3', b, flags=re.S) == a,
     # CL: closure `|x| EXPR` given explicit parameter/return types and ghost requires/ensures: `|x: T| -> (r: U) requires .. ensures .. { EXPR }`
-    'CL': lambda a, b: (lambda m: bool(m) and re.search(r'\|\s*%s\s*:' % re.escape(m.group(1)), b) is not None and norm_ws(b).endswith(norm_ws('{ ' + m.group(2) + ' }')))(re.fullmatch(r'\|\s*(\w+)\s*\|\s*(.+)', a, re.S)),
+    # (the executable body must be exactly EXPR; a leading ghost `proof { .. }` block - erased by compilation - is allowed)
+    'CL': lambda a, b: (lambda m: bool(m) and re.search(r'\|\s*%s\s*:' % re.escape(m.group(1)), b) is not None and (
+        norm_ws(b).endswith(norm_ws('{ ' + m.group(2) + ' }'))
+        or re.search(r'\{\s*proof\s*\{[^{}]*\}\s*' + re.escape(norm_ws(m.group(2))) + r'\s*\}$', norm_ws(b)) is not None))(re.fullmatch(r'\|\s*(\w+)\s*\|\s*(.+)', a, re.S)),
     'S1': lambda a, b: True,   # monomorphisation of a generic parameter / iterator type; logged
     'S2': lambda a, b: True,   # by-value `mut self` modelled as `&mut self` (Verus has no `mut self`): the final move out of self is a take; logged
     'W2': lambda a, b: True,   # call routed through a prelude wrapper whose body is that same call; logged
@@ -397,6 +402,48 @@ def transform_body(unit, body, directives, log):
             edits.append((at, at, '\n// GHOST-BEGIN\n' + ghost + '// GHOST-END\n'))
         elif kind == 'pre':
             edits.append((0, 0, '\n// GHOST-BEGIN\n' + ghost + '// GHOST-END\n'))
+        elif kind == 'hoist':
+            # HL: a statement `[let x =] E.rest..` whose evaluation starts with E becomes `let NAME = E; <ghost> [let x =] NAME.rest..`
+            # (E is evaluated first either way; E must be the leading sub-expression of its statement)
+            pat = r'\s*'.join(re.escape(tok) for tok in re.findall(r'\w+|[^\w\s]', d['expr']))
+            ms = [m for m in re.finditer(pat, body) if mbody[m.start()] == body[m.start()]]
+            if len(ms) != 1:
+                raise ExtractError('%s: hoist `%s` expected 1 occurrence, found %d' % (unit, d['expr'], len(ms)))
+            m = ms[0]
+            depth, last = 0, -1
+            for j, ch in enumerate(mbody[:m.start()]):
+                if ch in '([{':
+                    depth += 1
+                elif ch in ')]}':
+                    depth -= 1
+                elif ch == ';' and depth == 0:
+                    last = j
+            lead = body[last + 1:m.start()]
+            if depth != 0 or not re.fullmatch(r'\s*(let\s+(mut\s+)?\w+\s*(:[^=;]+)?=\s*)?', lead):
+                raise ExtractError('%s: hoist `%s`: not the leading sub-expression of its statement (`%s`)' % (unit, d['expr'], lead.strip()))
+            ss = last + 1
+            edits.append((ss, ss, '\nlet %s = %s;\n// GHOST-BEGIN\n%s// GHOST-END\n' % (d['name'], body[m.start():m.end()], ghost)))
+            edits.append((m.start(), m.end(), d['name']))
+            log.append({'unit': unit, 'rule': 'HL', 'before': norm_ws(d['expr'])[:80], 'after': 'let %s = <that expression>; .. %s ..' % (d['name'], d['name'])})
+        elif kind == 'tail':
+            # TL: the tail expression `E` of the body becomes `let NAME = E; <ghost> NAME` (same value, same evaluation order)
+            depth, last = 0, -1
+            for j, ch in enumerate(mbody):
+                if ch in '([{':
+                    depth += 1
+                elif ch in ')]}':
+                    depth -= 1
+                elif ch == ';' and depth == 0:
+                    last = j
+            ts = last + 1
+            while ts < len(body) and body[ts].isspace():
+                ts += 1
+            te = len(body.rstrip())
+            if ts >= te or re.match(r'(if|for|while|loop|let|unsafe|return)\b|\{', body[ts:]):
+                raise ExtractError('%s: no plain tail expression to bind (found `%s`)' % (unit, body[ts:ts + 30]))
+            edits.append((ts, ts, 'let %s%s = ' % (d['name'], (': ' + d['type']) if d.get('type') else '')))
+            edits.append((te, te, ';\n// GHOST-BEGIN\n' + ghost + '// GHOST-END\n' + d['name'] + '\n'))
+            log.append({'unit': unit, 'rule': 'TL', 'before': norm_ws(body[ts:te])[:80], 'after': 'let %s = <that expression>; %s' % (d['name'], d['name'])})
         elif kind == 'rewrite':
             a, b, rule = d['from'], d['to'], d['rule']
             if rule not in REWRITE_RULES or not REWRITE_RULES[rule](a, b):
@@ -550,6 +597,15 @@ def process(template_path, info, out_lines, depth=0):
                     directives.append(cur)
                 elif t.startswith('//@pre'):
                     cur = {'kind': 'pre', 'text': ''}
+                    directives.append(cur)
+                elif t.startswith('//@hoist '):
+                    parts = t.split(None, 2)
+                    expr, _ = parse_q(parts[2])
+                    cur = {'kind': 'hoist', 'name': parts[1], 'expr': expr, 'text': ''}
+                    directives.append(cur)
+                elif t.startswith('//@tail '):
+                    tm = re.match(r'//@tail\s+(\w+)\s*(?::\s*(.+))?$', t)
+                    cur = {'kind': 'tail', 'name': tm.group(1), 'type': tm.group(2), 'text': ''}
                     directives.append(cur)
                 elif t.startswith('//@rewrite '):
                     rest = t[len('//@rewrite '):].strip()
